@@ -61,6 +61,11 @@ async def check_request(ctx, s, engine, req, sdl, require_valid=True):
     w_ref, w_eng = X.make_worlds(s, req)
     if req.wseed % 5 == 0:
         w_ref.p_null_nonnull = w_eng.p_null_nonnull = 0.04
+    if req.wseed % 3 == 0:
+        w_eng.share_values = True                 # one field instance reached twice hands out the same list / object
+    if req.wseed % 11 == 0:
+        w_ref.p_long = w_eng.p_long = 0.05        # size boundaries: lists of 513 / 600 / 1030 leaves
+        st.inc("requests_with_long_lists_enabled")
     case = dict(req.describe(), sdl=sdl)
     try:
         ref = X.run_reference(s, req, w_ref)
